@@ -7,6 +7,7 @@ import (
 	"go.flow.arcalot.io/pluginsdk/schema"
 	"io"
 	"os"
+	"strings"
 	"sync"
 	"time"
 )
@@ -126,7 +127,9 @@ closeLoop:
 				MessageTypeError,
 				errorSent.RunID,
 				ErrorMessage{
-					Error:       errorSent.Err.Error(),
+					// The text may quote raw bytes the client sent (byte-string keys, for example). A CBOR text
+					// string must be valid UTF-8, or the client cannot decode the error message at all.
+					Error:       strings.ToValidUTF8(errorSent.Err.Error(), "\uFFFD"),
 					StepFatal:   errorSent.StepFatal,
 					ServerFatal: errorSent.ServerFatal,
 				},
